@@ -125,8 +125,46 @@ func (x *Exec) bindLets(e *Env, call *ast.CallExpr, args []Value, hasRecv bool, 
 		return
 	}
 	name, occ := x.callOccurrence(x.top(), call)
+	// dynamic occurrence: how many calls of this callee were made so far on this path (kinds argn /
+	// recvn / retn); after a merge of paths with different counts the counter is unknown and the
+	// dynamic ghosts stay unbound (arbitrary).
+	dyn := -1
+	hasDyn := false
 	for _, lc := range x.C.Lets {
-		if lc.Callee != name || lc.Occ != occ || (lc.Kind == "ret") != after {
+		if lc.Callee == name && strings.HasSuffix(lc.Kind, "n") {
+			hasDyn = true
+		}
+	}
+	if hasDyn {
+		if e.st.ghost == nil {
+			e.st.ghost = map[string]Value{}
+		}
+		key := "#dyn:" + name
+		cur := int64(0)
+		known := true
+		if v, ok := e.st.ghost[key]; ok {
+			if sc, ok := v.(Scalar); ok && sc.T.Op == "const" {
+				cur = sc.T.V.Int64()
+			} else {
+				known = false
+			}
+		}
+		if known {
+			if !after {
+				cur++
+				e.st.ghost[key] = Scalar{T: IntC(cur), Typ: types.Typ[types.Int]}
+			}
+			dyn = int(cur)
+		}
+	}
+	for _, lc := range x.C.Lets {
+		kind := lc.Kind
+		if strings.HasSuffix(kind, "n") {
+			kind = strings.TrimSuffix(kind, "n")
+			if lc.Callee != name || lc.Occ != dyn || (kind == "ret") != after {
+				continue
+			}
+		} else if lc.Callee != name || lc.Occ != occ || (lc.Kind == "ret") != after {
 			continue
 		}
 		if e.st.ghost == nil {
@@ -143,7 +181,7 @@ func (x *Exec) bindLets(e *Env, call *ast.CallExpr, args []Value, hasRecv bool, 
 			}
 			return v
 		}
-		switch lc.Kind {
+		switch kind {
 		case "arg":
 			i := lc.Idx
 			if hasRecv {
@@ -209,7 +247,7 @@ func (x *Exec) letType(lc LetClause) types.Type {
 	// type is taken from a package-level function of that name, when there is one
 	if fn, ok := x.Pkg.Types.Scope().Lookup(lc.Callee).(*types.Func); ok {
 		sig := fn.Type().(*types.Signature)
-		switch lc.Kind {
+		switch strings.TrimSuffix(lc.Kind, "n") {
 		case "arg":
 			if lc.Idx < sig.Params().Len() {
 				return sig.Params().At(lc.Idx).Type()
@@ -263,7 +301,7 @@ func letTypeOf(lc LetClause, info *types.Info, fd *ast.FuncDecl) types.Type {
 			return true
 		}
 		sig := fn.Type().(*types.Signature)
-		switch lc.Kind {
+		switch strings.TrimSuffix(lc.Kind, "n") {
 		case "arg":
 			if lc.Idx < sig.Params().Len() {
 				res = sig.Params().At(lc.Idx).Type()
